@@ -122,8 +122,11 @@ func handleConn(conn net.Conn, conf *Config, logFrameRate bool) error {
 
 	log.Print("reading frames")
 
-	frameLogIntervalFirstMin *= header.FPS()
-	frameLogInterval *= header.FPS()
+	// Scaled per connection: scaling the package level values compounds over
+	// reconnections and reaches zero (a division by zero below) after a few
+	// dozen connections of a 60 fps camera.
+	frameLogIntervalFirstMin := frameLogIntervalFirstMin * header.FPS()
+	frameLogInterval := frameLogInterval * header.FPS()
 
 	count := 0
 	t0 := time.Now()
